@@ -597,7 +597,9 @@ COQ_FILES = ["Gen/LayoutGen.v", "Cal/LayoutProofs.v", "Cal/TermsModel.v", "Cal/A
              "Cal/LeakPhysical.v", "Cal/LeakPhysicalEx.v", "Cal/FillLoops.v", "Cal/FillLoopsProofs.v",
              "Cal/FillLoopsRecovers.v", "Cal/EndToEndLeak.v", "Cal/EndToEndLeakEx.v",
              "Cal/LeakETerms.v", "Cal/EndToEndAll.v", "Cal/EndToEndDevice.v", "Cal/EndToEndFinal.v",
-             "Properties_C01.v"]
+             "Cal/EndToEndFinalEx.v", "Cal/EndToEndCore.v", "Cal/EndToEndCoreDevice.v", "Cal/EndToEndCoreEx.v",
+             "Cal/EndToEndETerms.v", "Cal/EndToEndE12Check.v", "Cal/EndToEndBounds.v",
+             "Properties_C01.v", "Properties_C01b.v"]
 
 
 def coq_part(ctx):
@@ -640,6 +642,9 @@ def numeric(ctx):
     # leakage pass of _vnacal_new_solve_start_frequency (samples, vnlt_sum, vnlt_count, vnmm_m_matrix, saved terms)
     # against SolveSimple.leak_acc / leak_mean / m_adjusted / leak_terms (ocaml/drv_calcore3), exact
     calcore_num.leak_tie(ctx, 40 if quick else 400)
+    # convert_ue14_to_e12 with its failure exit (um == 0.0 -> EDOM) against EndToEndE12Check.q_convert_checked
+    # (harness/calcore_e12conv.c includes vnacal_new_solve.c; one Eval vm_compute for all cases)
+    calcore_num.e12conv_tie(ctx, 30 if quick else 200)
 
 
 # =============================================================================== main
